@@ -11,6 +11,12 @@
 //!  * for the encoders written into sinks that take fewer octets than offered
 //!    (part 5): harness-written DER as the reference and the law "Ok(()) only
 //!    if every octet of it has arrived".
+//!  * for the decoders driven through `bcder::decode::Source` implementations
+//!    of the harness (part 6, `c17_source.rs`): harness-written DER whose
+//!    instants / serial octets are known, and "how the octets arrive is not
+//!    part of the value";
+//!  * for the decimal text of serial numbers in decorated spellings (part 7,
+//!    `c17_text.rs`): the number the numeral denotes.
 //!
 //! chrono is only used to *construct* `Time` values from an instant
 //! (`DateTime::from_timestamp`) and to read the instant back
@@ -25,6 +31,13 @@ use rpki::repository::x509::{Serial, Time, Validity};
 use serde_json::json;
 use std::cmp::Ordering;
 use std::str::FromStr;
+
+// part 6: the decoders driven through Source implementations of the harness
+#[path = "c17_source.rs"]
+mod c17_source;
+// part 7: the decimal text of serial numbers through every door, canonical and decorated
+#[path = "c17_text.rs"]
+mod c17_text;
 
 //============ Oracle: calendar ===============================================
 
@@ -2238,14 +2251,23 @@ pub fn run(ctx: &mut Ctx) {
         ctx.notes.push("C17: oracle self-test failed (calendar anchors); nothing judged".into());
         return;
     }
-    ctx.breadcrumb("C17 calendar");
-    part_calendar(ctx);
-    ctx.breadcrumb("C17 decode");
-    part_decode(ctx);
-    ctx.breadcrumb("C17 validity");
-    part_validity(ctx);
-    ctx.breadcrumb("C17 serial");
-    part_serial(ctx);
-    ctx.breadcrumb("C17 sinks");
-    part_sinks(ctx);
+    // C17_TIMING=1 adds the wall time of each part to the observations (for sizing the workloads only)
+    let timing = std::env::var_os("C17_TIMING").is_some();
+    let parts: [(&str, fn(&mut Ctx)); 7] = [
+        ("calendar", part_calendar),
+        ("decode", part_decode),
+        ("validity", part_validity),
+        ("serial", part_serial),
+        ("sinks", part_sinks),
+        ("sources", c17_source::part_sources),
+        ("serial text", c17_text::part_serial_text),
+    ];
+    for (name, part) in parts {
+        ctx.breadcrumb(&format!("C17 {name}"));
+        let t0 = ctx.elapsed_s();
+        part(ctx);
+        if timing {
+            ctx.obs(&format!("timing_ms:{name}"), ((ctx.elapsed_s() - t0) * 1000.0) as u64);
+        }
+    }
 }
